@@ -276,14 +276,15 @@ pub fn spec_strategy() -> BoxedStrategy<BlockSpec> {
         Just(AuEncode),
         Just(AuDecode),
         Just(RtlSdrDecode),
-        (11u32..600, 0u32..100, 0u32..=100, prop::bool::weighted(0.4)).prop_map(|(s, d, t, clk)| SymbolSync {
+        // half of the cases with few samples per symbol: the outputs fill up within one case
+        (prop_oneof![11u32..600, 11u32..30], 0u32..100, 0u32..=100, any::<bool>()).prop_map(|(s, d, t, clk)| SymbolSync {
             sps: s as f32 / 10.0,
             maxdev: d as f32 / 100.0,
             t0: t as f32 / 100.0,
             t1: 1.0 - t as f32 / 100.0,
             clk,
         }),
-        (11u32..600, prop::bool::weighted(0.4)).prop_map(|(s, clk)| ZeroCrossing { sps: s as f32 / 10.0, clk }),
+        (prop_oneof![11u32..600, 11u32..30], any::<bool>()).prop_map(|(s, clk)| ZeroCrossing { sps: s as f32 / 10.0, clk }),
         (0u16..6, 2u16..40, any::<bool>(), any::<bool>()).prop_map(|(min, max, checksum, fix)| Hdlc { min, max, checksum, fix }),
         Just(Il2p),
         (1u16..300, 0u8..20).prop_map(|(max, tail)| StreamToPduU8 { max, tail }),
